@@ -41,9 +41,13 @@ class Cmp:
     self.worst = 0.0
     self.worst_name = ""
 
-  def close(self, name: str, got, exp, tol: Optional[float] = None) -> bool:
+  def close(self, name: str, got, exp, tol: Optional[float] = None, scale: Optional[float] = None) -> bool:
+    """|got-exp| <= tol * max(1, max|exp|, scale).  `scale` lets a caller make the tolerance relative to the magnitude of the
+    quantities the field was computed from (e.g. constraint forces for solver outputs)."""
     self.nfields += 1
     e, s = err(got, exp)
+    if scale is not None:
+      s = max(s, float(scale))
     t = self.tol if tol is None else tol
     rr = e / s / t if np.isfinite(e) else 1e9
     if rr > self.worst:
